@@ -160,6 +160,8 @@ pub struct HubInner {
     occ: HashMap<(u8, u8, u8, Kind), u16>,
     /// leader-side intervals for C17: (pol, party, seq of first run RPC, seq of end)
     pub run_sent: Vec<(u8, u8, u64)>,
+    /// number of times `output` yields to the runtime before it completes
+    pub output_yields: u8,
 }
 
 pub struct Hub {
@@ -251,9 +253,6 @@ impl PolicyClient for HClient {
         self.call(to, Kind::Msg, Payload::Msg(msg)).await
     }
     async fn output(&self, _to: Url, result: Result<Literal, OutputError>) -> Result<(), HErr> {
-        let mut h = self.hub.inner.lock().unwrap();
-        h.seq += 1;
-        let seq = h.seq;
         let r = match result {
             Ok(l) => Ok(format!("{l}")),
             Err(e) => Err(match &e {
@@ -268,7 +267,16 @@ impl PolicyClient for HClient {
                 other => format!("{other}"),
             }),
         };
+        // a notification counts as sent when the call completes; a real client suspends at least
+        // once on I/O, which the harness models by `output_yields` cooperative yields
+        let yields = self.hub.inner.lock().unwrap().output_yields;
+        for _ in 0..yields {
+            tokio::task::yield_now().await;
+        }
         let (pol, me) = (self.pol, self.me);
+        let mut h = self.hub.inner.lock().unwrap();
+        h.seq += 1;
+        let seq = h.seq;
         h.outputs.push(OutRec { pol, party: me, result: r, seq });
         Ok(())
     }
@@ -285,6 +293,9 @@ pub struct Proc {
     pub handles: Mutex<HashMap<Uuid, PolicyStateHandle>>,
 }
 
+/// used by `./check replay` only (one execution per process): what `run_history` gives the clients
+pub static REPLAY_OUTPUT_YIELDS: std::sync::atomic::AtomicU8 = std::sync::atomic::AtomicU8::new(0);
+
 pub struct World {
     pub hub: Arc<Hub>,
     pub procs: Vec<Arc<Proc>>,
@@ -296,7 +307,7 @@ impl World {
     pub fn new(n: usize, concurrency: usize, policies: Vec<Vec<Policy>>) -> Arc<World> {
         install_gate_router();
         let comp_ids: Vec<Uuid> = policies.iter().map(|p| p[0].computation_id).collect();
-        let hub = Arc::new(Hub { inner: Mutex::new(HubInner::default()), comp_ids: comp_ids.clone() });
+        let hub = Arc::new(Hub { inner: Mutex::new(HubInner { output_yields: REPLAY_OUTPUT_YIELDS.load(std::sync::atomic::Ordering::Relaxed), ..Default::default() }), comp_ids: comp_ids.clone() });
         let procs = (0..n)
             .map(|p| Arc::new(Proc { party: p as u8, sem: Arc::new(Semaphore::new(concurrency)), concurrency, handles: Mutex::new(HashMap::new()) }))
             .collect();
@@ -980,6 +991,8 @@ pub struct Walk {
     pub max_steps: usize,
     /// events never taken automatically
     pub no_auto_compile: bool,
+    /// the clients' `output` call suspends this many times before completing
+    pub output_yields: u8,
 }
 
 pub struct WalkResult {
@@ -1012,6 +1025,7 @@ pub fn run_walk(n: usize, concurrency: usize, policies: Vec<Vec<Policy>>, walk: 
             let rt = tokio::runtime::Builder::new_current_thread().enable_time().start_paused(true).build().map_err(|e| e.to_string())?;
             let out = rt.block_on(async move {
                 let w = World::new(n, concurrency, policies);
+                w.hub.inner.lock().unwrap().output_yields = walk.output_yields;
                 let mut d = Driver::new(w, msg_policy);
                 d.quiesce().await;
                 let mut steps = vec![];
